@@ -91,6 +91,7 @@ type TypeSpec struct {
 	Immutable map[string]bool
 	Ghost     map[string]string // ghost field -> "int"|"bool"
 	Invariant []Clause
+	ChanOpen  map[string]bool   // fields whose channel is declared never closed ('chan f open: ...'): closing it is an obligation failure
 	ChanInv   map[string]Clause // field -> predicate over v: every value sent on the channel held by that field satisfies it (obligation at sends, assumption at receives)
 	AssumedInv []Clause // assumed when the lock is taken / at inv(x); not checked (listed as assumptions)
 	Props     []string
@@ -758,7 +759,16 @@ func (sp *Specs) parseFile(path string, extern bool) error {
 			if curT.ChanInv == nil {
 				curT.ChanInv = map[string]Clause{}
 			}
-			curT.ChanInv[strings.TrimSpace(rest[:i])] = c
+			fld := strings.TrimSpace(rest[:i])
+			// "chan f open: p" - the channel held by f is never closed: a receive always yields a sent value
+			if fs := strings.Fields(fld); len(fs) == 2 && fs[1] == "open" {
+				fld = fs[0]
+				if curT.ChanOpen == nil {
+					curT.ChanOpen = map[string]bool{}
+				}
+				curT.ChanOpen[fld] = true
+			}
+			curT.ChanInv[fld] = c
 		case "assume-invariant":
 			if curT == nil {
 				return fail(fmt.Errorf("assume-invariant outside type block"))
